@@ -55,6 +55,27 @@ def directed_shutdown_tasks(quick):
     return swept
 
 
+def blocking_throttle_tasks(rng, quick):
+    """A saturated blocking throttle (one running, `count` queued) is shut down; submitters arrive while shutdown() is
+    in progress and after it has returned: each of them raises or returns, none hangs."""
+    tasks = []
+    for wait in (False, True):
+        for count in (1, 2):
+            subs = [{"S": 0, "script": ["V"], "dur": 600, "thread": 0}]
+            for q in range(count):
+                subs.append({"S": 10 + q, "script": ["V"], "dur": 50, "thread": 1 + q})
+            subs.append({"S": 300, "script": ["V"], "dur": 50, "thread": 1 + count})      # while / after shutdown()
+            subs.append({"S": 2000, "script": ["V"], "dur": 50, "thread": 2 + count})     # long after
+            pp = {"base": "pool", "workers": 1, "layers": [{"t": "throttle", "count": count, "block": True}], "subs": subs,
+                  "shutdown": {"at": 100, "wait": wait, "repeat": 1, "threads": 1, "cancel_futures": None},
+                  "horizon": 40000}
+            for k in range(3 if quick else 30):
+                tasks.append({"scen": "stack", "params": pp, "strat": ["random", rng.randrange(10 ** 9), 0.5],
+                              "gran": "line" if k % 2 else "sync",
+                              "facts": {"base": "pool", "types": ["throttle"], "block": True, "directed": True}})
+    return tasks
+
+
 def run(ck):
     quick = ck.tier == "quick"
     rng = random.Random(ck.seed)
@@ -69,7 +90,7 @@ def run(ck):
                       "facts": {"base": p["base"], "types": sorted(set(l["t"] for l in p["layers"])),
                                 "block": any(l.get("block") for l in p["layers"])}})
     ck.run_and_validate(tasks, TRACE)
-    swept = directed_shutdown_tasks(quick)
+    swept = directed_shutdown_tasks(quick) + blocking_throttle_tasks(rng, quick)
     ck.run_and_validate(swept, TRACE, nontrivial=lambda t, r: True)
     if not quick:
         # the repository's own test suite (real threads, real time) recorded through class-level wrappers and validated
